@@ -2,6 +2,7 @@
 package c11
 
 import (
+	"regexp"
 	"encoding/json"
 	"fmt"
 	"sort"
@@ -273,6 +274,19 @@ func sameNameSets() []modset {
 		one("grouping:deep-diamond", " grouping d { leaf x { type string; } } grouping b { container cb { uses d; } } grouping c { container cc { uses d; } } grouping top { uses b; uses c; container w { uses d; } } container t { uses top; }", "ok"),
 		one("grouping:direct-and-deep-diamond", " grouping d { leaf x { type string; } } grouping b { uses d; } grouping top { uses b; container w { uses d; } } container t { uses top; }", "ok"),
 		one("grouping:nested-definition-cycle", " grouping g { grouping h { container c { uses g; } } uses h; } container t { uses g; }", "error"),
+		// the defect sits in the second of two references of one definition (the first one is fine,
+		// and - for features - disabled because no feature is enabled by default)
+		one("second-ref:feature:dangling", " feature x; feature fa { if-feature x; if-feature nosuch; } leaf l { if-feature fa; type string; }", "error"),
+		one("second-ref:feature:cycle", " feature x; feature fa { if-feature x; if-feature fb; } feature fb { if-feature fa; } leaf l { if-feature fa; type string; }", "error"),
+		one("second-ref:feature:cycle-unused", " feature x; feature fa { if-feature x; if-feature fb; } feature fb { if-feature x; if-feature fa; } leaf l { type string; }", "error"),
+		// (a dangling if-feature after a disabled one on a data node is only noticed when the first
+		// feature is enabled; C11 demands termination and determinism here, not an error: "any")
+		one("second-ref:feature:node-dangling", " feature x; leaf l { if-feature x; if-feature nosuch; type string; }", "any"),
+		one("second-ref:typedef:union-cycle", " typedef t { type union { type int8; type t; } } leaf l { type t; }", "error"),
+		one("second-ref:typedef:union-dangling", " typedef t { type union { type int8; type nosuch; } } leaf l { type t; }", "error"),
+		one("second-ref:grouping:cycle", " grouping ok { leaf o { type string; } } grouping g { uses ok; uses g; } container c { uses g; }", "error"),
+		one("second-ref:grouping:dangling", " grouping ok { leaf o { type string; } } grouping g { uses ok; uses nosuch; } container c { uses g; }", "error"),
+		one("second-ref:identity:dangling-second-identity", " identity i1; identity i2 { base i1; } identity i3 { base nosuch; } leaf l { type identityref { base i1; } }", "error"),
 		two("typedef:modules:cyclic", " typedef t { type int8; } leaf la { type t; }", " typedef t { type t; } leaf lb { type t; }", "error"),
 		two("typedef:modules:clean", " typedef t { type int8; } leaf la { type t; }", " typedef t { type string; } leaf lb { type t; }", "ok"),
 		one("typedef:scopes:cyclic", " container x { typedef t { type int8; } leaf l { type t; } } container y { typedef t { type t; } leaf l { type t; } }", "error"),
@@ -349,8 +363,25 @@ func checkTotal(ms modset) (vs []engine.Violation, base gen.Result, verdict, dum
 			mk("valid-set-rejected:"+ms.Name, base.Stage+": "+base.Err.Error())
 		}
 	}
+	// a cyclic or dangling reference is an error whichever features the caller enables
+	if ms.Expect == "error" && verdict == "error" {
+		var feats []string
+		for m, text := range ms.Mods {
+			for _, f := range reFeature.FindAllStringSubmatch(text, -1) {
+				feats = append(feats, m+":"+f[1])
+			}
+		}
+		if len(feats) > 0 {
+			sort.Strings(feats)
+			if r := gen.Compile(ms.Mods, gen.Options{MapOrder: []int{}, Features: feats}); r.Verdict() != "error" {
+				mk("cycle-or-dangling-reference-accepted-with-all-features-enabled:"+ms.Name, "verdict "+r.Verdict()+" with features "+fmt.Sprint(feats))
+			}
+		}
+	}
 	return
 }
+
+var reFeature = regexp.MustCompile(`feature ([a-z0-9]+)`)
 
 func checkOrder(ms modset, choices []int, verdict, dump string) []engine.Violation {
 	r := gen.Compile(ms.Mods, gen.Options{MapOrder: choices})
